@@ -41,6 +41,7 @@ struct _thpool {
     pthread_mutex_t lock;
     pthread_cond_t notify;
     m_list_t *threads;              /* Always used behind a mutex */
+    size_t alive_threads;           /* Always used behind a mutex: worker threads that did not leave the pool yet */
     m_queue_t *tasks;               /* Always used behind a mutex */
     atomic_uint running_tasks;
     m_thpool_flags flags;           /* Nobody writes this but us during thpool_new. No need to use an atomic */
@@ -86,6 +87,11 @@ static void *thpool_thread(void *thpool) {
         pool->running_tasks--;
     }
     
+    /* We are leaving: detached threads cannot be joined, let wait_pool() know */
+    pool->alive_threads--;
+    if (pool->flags & M_THPOOL_DETACHED) {
+        pthread_cond_broadcast(&(pool->notify));
+    }
     pthread_mutex_unlock(&(pool->lock));
     return NULL;
 }
@@ -107,6 +113,13 @@ static int wait_pool(m_thpool_t *pool, thpool_shutdown_t shutdown) {
                 pthread_t *th = m_itr_get(m_itr);
                 ret += pthread_join(*th, NULL);
             });
+        } else {
+            /* Detached threads cannot be joined: wait until all of them left the pool */
+            pthread_mutex_lock(&pool->lock);
+            while (pool->alive_threads > 0) {
+                pthread_cond_wait(&pool->notify, &pool->lock);
+            }
+            pthread_mutex_unlock(&pool->lock);
         }
         if (ret == 0) {
             /* There are no active threads anymore */
@@ -133,6 +146,7 @@ static int add_threads(m_thpool_t *pool, int num) {
         err = pthread_create(th, &tattr, thpool_thread, (void *) pool);
         if (err == 0) {
             m_list_insert(pool->threads, th);
+            pool->alive_threads++;
         } else {
             memhook._free(th);
         }
